@@ -203,6 +203,7 @@ pub struct Sim<'a> {
   pub stats: SimStats,
   pub bytes: Option<&'a mut dyn ByteLayer>,
   pub byte_error: Option<String>,
+  cap: usize,
 }
 
 impl<'a> Sim<'a> {
@@ -212,7 +213,9 @@ impl<'a> Sim<'a> {
     Sim { tape, cfg: case.cfg.clone(), kbd: case.kbd.iter().cloned().collect(), tab: if case.has_tablet { case.tab.iter().cloned().collect() } else { VecDeque::new() }, has_tablet: case.has_tablet,
       kbd_ready: VecDeque::new(), tab_ready: VecDeque::new(), kbd_notify: false, tab_notify: false, trace: vec![], fail_at: case.fail_at, calls: 0,
       kbd_ended: false, tab_ended: false, kbd_end_at: case.kbd_end_at, tab_end_at: if case.has_tablet { case.tab_end_at } else { None }, extra_ticks: case.extra_ticks, interrupts: 0, in_drain: false, write_fault: if case.hybrid { case.write_fault } else { None }, read_fault: if case.hybrid { case.read_fault } else { None }, kbd_reads_done: 0, tab_reads_done: 0, sends_done: 0, hw_failed: false, kbd_sabotaged: false, tab_sabotaged: false,
-      stats: SimStats::default(), bytes, byte_error: None }
+      stats: SimStats::default(), bytes, byte_error: None,
+      // runaway guard; scaled for marathon scripts
+      cap: TRACE_CAP.max(10 * (case.kbd.len() + case.tab.len()) + 1000) }
   }
   fn now(&self) -> u64 { sim_now_us() }
   /// move the clock to `to` (never backwards) and deliver everything that has arrived by then
@@ -266,7 +269,7 @@ impl<'a> Sim<'a> {
       self.stats.io_error += 1;
       return Err(format!("{} in {} (call #{})", INJECTED, what, c));
     }
-    if self.trace.len() > TRACE_CAP * 2 { return Err("simulator: runaway loop (trace cap exceeded twice)".to_string()); }
+    if self.trace.len() > self.cap * 2 { return Err("simulator: runaway loop (trace cap exceeded twice)".to_string()); }
     Ok(())
   }
   fn next_event_time(&self) -> Option<u64> {
@@ -318,7 +321,7 @@ impl<'a> VerifDriver for Sim<'a> {
     self.in_drain = false;
     let t_in = self.now();
     let to_us = timeout.map(|d| d.as_micros() as u64);
-    if self.trace.len() > TRACE_CAP { self.stats.trace_cap_hit += 1; self.unplug_keyboard_now(); }
+    if self.trace.len() > self.cap { self.stats.trace_cap_hit += 1; self.unplug_keyboard_now(); }
     if !(self.kbd_notify || self.tab_notify) {
       let next_arrival = self.next_event_time();
       // a timeout of more than ~11 days of simulated time is an unarmed wait for scheduling purposes
